@@ -64,4 +64,64 @@ def posFrom : List Node → Nat → Node → List Nat
   | [], _, _ => []
   | p :: r, i, t => (if p = t then [i] else []) ++ posFrom r (i + 1) t
 
+/-! ## Node labels of procedures (`ProcNode.__init__`, `show_proc_parent`)
+
+      if isinstance(obj, FortranBoundProcedure):
+          binder = getattr(obj, "parent", None); parent = getattr(binder, "parent", None)
+      else:
+          parent = getattr(obj, "parent", None); binder = getattr(getattr(obj, "binding", None), "parent", None)
+      parent_label = f"{parent.name}::" if parent and gd.show_proc_parent else ""
+      binding_label = f"{binder.name}%" if binder else ""
+      self.attribs["label"] = f"{parent_label}{binding_label}{self.name}"
+
+  The label is the only thing the reader of a picture or of the table fall-back sees of a node. -/
+
+/-- what the constructor reads for the label -/
+structure LabelIn where
+  /-- `self.name` as `BaseNode.__init__` left it -/
+  name : Str
+  /-- name of the scope the procedure is declared in (for a type-bound procedure: the scope of its type);
+      `none` when there is none (a procedure known by name only) -/
+  parent : Option Str := none
+  /-- type-bound procedure: name of its type; procedure that a specific binding names: name of the type
+      of that binding -/
+  binder : Option Str := none
+deriving DecidableEq, Repr
+
+def parentLabel (showParent : Bool) (i : LabelIn) : Str :=
+  match i.parent with
+  | some p => if showParent then p ++ [':', ':'] else []
+  | none => []
+
+def bindingLabel (i : LabelIn) : Str :=
+  match i.binder with
+  | some b => b ++ ['%']
+  | none => []
+
+/-- `ProcNode.attribs["label"]` -/
+def procLabel (showParent : Bool) (i : LabelIn) : Str :=
+  parentLabel showParent i ++ (bindingLabel i ++ i.name)
+
+/-- reading a label back: everything before the first `c`, and what follows it -/
+def splitFirst (c : Char) : Str → Option (Str × Str)
+  | [] => none
+  | x :: r => if x = c then some ([], r) else (splitFirst c r).map fun (a, b) => (x :: a, b)
+
+def decodeBinder (s : Str) : Option Str × Str :=
+  match splitFirst '%' s with
+  | some (b, n) => (some b, n)
+  | none => (none, s)
+
+/-- the reader's view of a label written with `show_proc_parent`: scope, type, name -/
+def decodeLabel (s : Str) : LabelIn :=
+  match splitFirst ':' s with
+  | some (p, ':' :: rest) => { parent := some p, binder := (decodeBinder rest).1, name := (decodeBinder rest).2 }
+  | _ => { parent := none, binder := (decodeBinder s).1, name := (decodeBinder s).2 }
+
+/-- Fortran names hold neither `:` nor `%` -/
+def cleanName (s : Str) : Bool := !s.contains ':' && !s.contains '%'
+
+def LabelIn.clean (i : LabelIn) : Bool :=
+  cleanName i.name && (i.parent.map cleanName).getD true && (i.binder.map cleanName).getD true
+
 end Ford.Graph
